@@ -29,6 +29,8 @@ FLOORS = {"quick": {"grants": 20000, "advance_checks": 20000, "evictions": 500, 
 # floors for the situations added with the later rounds of seeded changes (evidence that they were really exercised)
 FLOORS["quick"].update({'releases_by_another_process': 1200, 'releases_through_another_resource': 1200})
 FLOORS["thorough"].update({'releases_by_another_process': 6000, 'releases_through_another_resource': 6000})
+FLOORS["quick"].update({'requests_refused_queue_full': 500, 'with_exits_by_base_exception': 3000})
+FLOORS["thorough"].update({'requests_refused_queue_full': 2500, 'with_exits_by_base_exception': 15000})
 GRID = [0, 0, 1, 1, 2, 3, 0.5, 3e-10, 5e-10]        # incl. distinct instants closer than any "rounding" grid
 
 
